@@ -114,6 +114,8 @@ class Out:
         self.raw = raw
         if " | " in raw:
             self.res, self.state = raw.rsplit(" | ", 1)
+            if self.state.endswith("M ?"):
+                self.state = "?"        # degraded harness (hooks unavailable): state not observable
         else:
             self.res, self.state = raw, ""
         self.toks = self.res.split(" ")
